@@ -20,6 +20,10 @@ let show_session chans (obs, k) =
     (if ended_err || not chans then ""
      else Printf.sprintf " c2s=%s s2c=%s" (hex_of_bytes k.c2s) (hex_of_bytes k.s2c))
 
+(* the harness's position-dependent payload of n bytes *)
+let pat_bytes n f = List.init n (fun i -> n_of_int ((f + 7 * i + i / 251) land 255))
+let cksum bs = List.fold_left (fun h b -> (h * 31 + int_of_n b) mod 1000000007) 0 bs
+
 let rec read_loop acc s =
   match s with
   | [] -> (List.rev acc, "clean")
@@ -88,4 +92,46 @@ let () = iter_lines (fun line ->
           | _ -> [] in
         Printf.printf "%s | %s\n" head (show_session false (run_session idz (evs pairs) lo.lo_conn))
       end else Printf.printf "%s\n" head
+  (* ---- extension (Model/C16_ext.v) *)
+  | ["wrn"; id; ty; n; f] ->
+      let pl = pat_bytes (int_of_string n) (int_of_string f) in
+      let w = rcon_write (z_of_dec id) (z_of_dec ty) pl in
+      let rec take k l = if k = 0 then [] else (match l with [] -> [] | x :: t -> x :: take (k - 1) t) in
+      let rd = (match run_flat rcon_read w with FOk _ -> "ok" | FErr _ -> "err" | FPanic _ -> "panic" | FFuel -> "fuel") in
+      Printf.printf "wrn %s len=%d decl=%s wr=ok rd=%s\n" (hex_of_bytes (take 12 w)) (List.length w)
+        (dec_of_z (declared_len pl)) rd
+  | ["mresp"; id; n; f] ->
+      let idz = z_of_dec id in
+      let resp = pat_bytes (int_of_string n) (int_of_string f) in
+      let pieces = split_resp resp in
+      let wire = resp_multi idz resp in
+      let k = List.length pieces in
+      (match run_flat (recv_n idz (nat_of_int k)) wire with
+       | FOk (ps, rest) ->
+           Printf.printf "mresp frames=%d wire=%d recv=ok n=%d left=%d ck=%d lens=%s\n" k (List.length wire) (List.length ps)
+             (List.length rest) (cksum (List.concat ps)) (String.concat "," (List.map (fun p -> string_of_int (List.length p)) ps))
+       | _ -> Printf.printf "mresp frames=%d wire=%d recv=err\n" k (List.length wire))
+  | "incr" :: id0 :: sid0 :: pairs ->
+      let rec ps = function
+        | c :: r :: t -> (bytes_of_hex c, bytes_of_hex r) :: ps t
+        | _ -> [] in
+      let (obs, k) = incr_lockstep (z_of_dec id0) (ps pairs) { c2s = []; s2c = []; sid = z_of_dec sid0 } in
+      Printf.printf "incr %s | sid=%s\n" (String.concat " " (List.map tok_of_obs obs)) (dec_of_z k.sid)
+  | "multi" :: k :: rest ->
+      let k = int_of_string k in
+      let rec split i l acc = if i = 0 then (List.rev acc, l) else (match l with x :: t -> split (i - 1) t (x :: acc) | [] -> (List.rev acc, [])) in
+      let (ids, toks) = split k rest [] in
+      let ks = List.map (fun id -> let z = z_of_dec id in { m_id = z; m_conn = { c2s = []; s2c = []; sid = z }; m_alive = true }) ids in
+      let ev_of t =
+        let j = String.index t '/' in
+        (nat_of_int (int_of_string (String.sub t 0 j)), ev_of_tok (String.sub t (j + 1) (String.length t - j - 1))) in
+      let os = run_multi (List.map ev_of toks) ks in
+      let rec int_of_nat = function O -> 0 | S n -> 1 + int_of_nat n in
+      let buf = Buffer.create 64 in
+      Buffer.add_string buf "multi";
+      for i = 0 to k - 1 do
+        let mine = List.filter (fun (j, _) -> int_of_nat j = i) os in
+        Buffer.add_string buf (Printf.sprintf " %d=[%s]" i (String.concat " " (List.map (fun (_, o) -> tok_of_obs o) mine)))
+      done;
+      print_string (Buffer.contents buf ^ "\n")
   | _ -> Printf.printf "?? %s\n" line)
